@@ -392,3 +392,48 @@ Definition drop_ct (fw : firewall) (cs : conns) (incoming : bool) (pkt : packet)
              then (VAllow, add_conn fw cs1 pkt incoming)
              else (VNoRule, cs1)
   end.
+
+(* ---------------------------------------------------------------------------------------------- *)
+(* Part 4: Drop over an abstract match function m (direction -> packet -> peer -> pool -> bool). With
+   m = table_match of the built tables this is drop / drop_ct (proofs/Firewall_drop.v: drop_ct_m_table); by C16_refine
+   the same value is obtained with m = "some rule of that direction matches", which lets the correspondence evaluate
+   rule sets whose port ranges are too wide to build entry by entry inside Coq (1-65535 is 65535 map entries). *)
+Definition matcher := bool -> packet -> peer -> pool -> bool.
+
+Definition in_conns_m (m : matcher) (ver : N) (cs : conns) (pkt : packet) (pr : peer) (pl : pool) : bool * conns :=
+  match aget pkt_eqb pkt cs with
+  | None => (false, cs)
+  | Some c =>
+      if ce_version c =? ver then (true, cs)
+      else if m (ce_incoming c) pkt pr pl
+           then (true, aset pkt_eqb pkt (mkCe (ce_incoming c) ver) cs)
+           else (false, adel pkt cs)
+  end.
+
+Definition drop_m (m : matcher) (cf : fwconf) (incoming : bool) (pkt : packet) (h : hostinfo) (pr : peer) (pl : pool)
+           (tracked : bool) : verdict :=
+  match remote_check h (pk_remote pkt) with
+  | Some v => v
+  | None =>
+      if negb (any_contains (routable cf) (pk_local pkt)) then VInvalidLocal
+      else if tracked then VAllow
+      else if m incoming pkt pr pl then VAllow else VNoRule
+  end.
+
+Definition drop_ct_m (m : matcher) (ver : N) (cf : fwconf) (cs : conns) (incoming : bool) (pkt : packet) (h : hostinfo)
+           (pr : peer) (pl : pool) : verdict * conns :=
+  match remote_check h (pk_remote pkt) with
+  | Some v => (v, cs)
+  | None =>
+      if negb (any_contains (routable cf) (pk_local pkt)) then (VInvalidLocal, cs)
+      else
+        let '(hit, cs1) := in_conns_m m ver cs pkt pr pl in
+        if hit then (VAllow, cs1)
+        else if m incoming pkt pr pl
+             then (VAllow, aset pkt_eqb pkt (mkCe incoming ver) cs1)
+             else (VNoRule, cs1)
+  end.
+
+Definition table_matcher (fw : firewall) : matcher := fun inc => table_match (fw_table fw inc) inc.
+Definition rules_matcher (cf : fwconf) (inr outr : list rule) : matcher :=
+  fun inc pkt pr pl => existsb (rule_matches cf inc pkt pr pl) (if inc then inr else outr).
